@@ -1,6 +1,6 @@
 """C11 — depth surfaces given at points are honoured, affine-exact and bounded (structural parts)."""
 from .. import facts, run
-from ..rules import dep, kernels
+from ..rules import dep, kernels, pure
 
 
 def main(tier):
@@ -13,6 +13,9 @@ def main(tier):
     dep.surface_fallback(P, rep)
     dep.surface_pairing(P, rep)    # consumers: the depth listed at a point reaches the model that uses it
     rep.assumptions.append("the Delaunay triangulation (third-party delaunator) is NOT decided; of the in-triangle tolerances only their form (slack proportional to machine epsilon) is")
+    # the answer does not depend on what was queried before (no cache that outlives a query: a necessary condition for a
+    # statement about 'all worlds and all points', which includes a second world in the same process)
+    pure.run(P, rep, pure.query_roots(P))
     rep.explanation = ("Reflexivity of the same-point test over the sign domain, structure of the corner/user point merge, symbolic proof that "
                        "the in-triangle interpolant is the affine function through the triangle's three vertices (with the constructor's "
                        "precomputed coefficients), vertex pairing, min/max over all nodal values, full-scan fallback.")
